@@ -16,6 +16,7 @@ import Rsa.Lemmas.C15Single
 import Rsa.Lemmas.C15One
 import Rsa.Lemmas.C15Cv
 import Rsa.Lemmas.C15PoisCv
+import Rsa.Lemmas.C15Lay
 import Mathlib.Analysis.Real.Sqrt
 
 set_option linter.unusedSectionVars false
@@ -464,5 +465,226 @@ theorem labels_first_appearance (l : List Nat) :
 
 example : firstAppearance [2, 0, 1, 2, 0, 1] = [2, 0, 1] ∧ codes [2, 0, 1, 2, 0, 1] = [0, 1, 2, 0, 1, 2] := by
   decide
+
+/-! ### round 3: dtype and memory layout of the measurement array -/
+
+/-- **Integer and float inputs, C- or Fortran-ordered (or strided) arrays give the same result.**
+    The user's array is raw memory: a flat buffer read through an offset and two strides
+    (`View`), of any element type with an entry-wise conversion to double (`cast`: the identity
+    for a float array, `castInt` for an integer array).  `ensureDouble` is `a.astype(np.float64)`
+    (fresh row- or column-major copy, keeping the axis order of the source), `kernelInput` what the
+    kernel's memoryview `data[i, ch]` reads from it.  Whatever offset, strides and element type:
+    (1) the kernel reads exactly the converted logical entries; (2) two arrays holding the same
+    logical matrix give the same kernel input, hence (3) the same unbalanced RDM for every
+    per-pair kernel and configuration. -/
+theorem layout_dtype_invariant {β γ : Type} (n P : Nat) (castv : β → Option K) (castw : γ → Option K)
+    (v : View β) (w : View γ)
+    (hsame : ∀ i j, i < n → j < P → castv (v.read i j) = castw (w.read i j)) :
+    (∀ i j, i < n → j < P →
+      kernelInput n P (ensureDouble castv n P v) i j = castv (v.read i j)) ∧
+    kernelInput n P (ensureDouble castv n P v) = kernelInput n P (ensureDouble castw n P w) ∧
+    (∀ (base : Cfg K) (k : (Nat → Option K) → (Nat → Option K) → K × K),
+      unbRdm (dataCfg base k (kernelInput n P (ensureDouble castv n P v)))
+        = unbRdm (dataCfg base k (kernelInput n P (ensureDouble castw n P w)))) := by
+  have h2 : kernelInput n P (ensureDouble castv n P v)
+      = kernelInput n P (ensureDouble castw n P w) := by
+    rw [kernelInput_ensureDouble, kernelInput_ensureDouble]
+    funext i ch
+    by_cases h : i < n ∧ ch < P
+    · rw [if_pos h, if_pos h, hsame i ch h.1 h.2]
+    · rw [if_neg h, if_neg h]
+  refine ⟨?_, h2, fun base k => by rw [h2]⟩
+  intro i j hi hj
+  rw [kernelInput_ensureDouble]
+  simp [hi, hj]
+
+/-- the standard layouts hold the logical matrix: a C-contiguous and a Fortran-contiguous array
+    of the matrix `M` read `M`; an integer array and the float array of the same numbers are
+    converted to the same doubles — so `layout_dtype_invariant` applies to each pair of them -/
+theorem layouts_hold_matrix (n P : Nat) (M : Nat → Nat → Option K) (Z : Nat → Nat → Int) :
+    (∀ i j, i < n → j < P → (rowMajor P M).read i j = M i j) ∧
+    (∀ i j, i < n → j < P → (colMajor n M).read i j = M i j) ∧
+    kernelInput n P (ensureDouble id n P (rowMajor P M))
+      = kernelInput n P (ensureDouble id n P (colMajor n M)) ∧
+    kernelInput n P (ensureDouble (castInt (α := K)) n P (colMajor n Z))
+      = kernelInput n P (ensureDouble id n P (rowMajor P (fun i j => some (ofInt (Z i j))))) := by
+  refine ⟨fun i j _ hj => rowMajor_read P M i j hj, fun i j hi _ => colMajor_read n M i j hi, ?_, ?_⟩
+  · refine (layout_dtype_invariant n P id id _ _ ?_).2.1
+    intro i j hi hj
+    simp only [id, rowMajor_read P M i j hj, colMajor_read n M i j hi]
+  · refine (layout_dtype_invariant n P _ id _ _ ?_).2.1
+    intro i j hi hj
+    simp only [id, colMajor_read n Z i j hi, rowMajor_read P _ i j hj, castInt]
+
+/-- non-vacuity: a view with negative strides into a larger buffer (offset 11, strides −6, −2:
+    `X[::-1, ::-1]` of a padded array) and a plain row-major array hold the same 2 × 3 integers -/
+example : let v : View Int := { buf := fun k => (k : Int), off := 11, s0 := -6, s1 := -2 }
+    let w : View Int := rowMajor 3 (fun i j => 11 - 6 * (i : Int) - 2 * (j : Int))
+    ∀ i, i < 2 → ∀ j, j < 3 → v.read i j = w.read i j := by
+  decide
+
+/-! ### round 3: conditions, loop bounds and dispatch tables regenerated from the source text -/
+
+/-- The *conditions* of the kernel text (leaves derived from `similarity.pyx`): a pair enters
+    only with positive weight (`if weight > 0`), a buffer entry is finalised only with positive
+    summed weight (`if weights[idx] > 0`, else NaN), the same for `calc_one`; a pair is admissible
+    iff not cross-validating or the fold codes differ; the self term is taken iff not
+    cross-validating; `calc_one` always excludes equal fold codes; the inner loop starts at
+    `i + 1` (every unordered pair once, no observation with itself). -/
+theorem leaf_guards (w : K) (cv a b i : Nat) :
+    (pairGuard w = 1 ↔ 0 < w) ∧ (finalGuard w = 1 ↔ 0 < w) ∧ (oneGuard w = 1 ↔ 0 < w) ∧
+    (oneFinalGuard w = 1 ↔ 0 < w) ∧ (admCond cv a b = 1 ↔ (cv = 0 ∨ a ≠ b)) ∧
+    (selfCond cv = 1 ↔ cv = 0) ∧ (oneAdm a b = 1 ↔ a ≠ b) ∧ innerStart i = i + 1 := by
+  refine ⟨?_, ?_, ?_, ?_, ?_, ?_, ?_, rfl⟩
+  · unfold pairGuard; by_cases h : 0 < w <;> simp [h]
+  · unfold finalGuard; by_cases h : 0 < w <;> simp [h]
+  · unfold oneGuard; by_cases h : 0 < w <;> simp [h]
+  · unfold oneFinalGuard; by_cases h : 0 < w <;> simp [h]
+  · unfold admCond; by_cases h : cv = 0 ∨ ¬ a = b <;> simp [h]
+  · unfold selfCond; by_cases h : cv = 0 <;> simp [h]
+  · unfold oneAdm; by_cases h : a = b <;> simp [h]
+
+/-- … and the model's loop is built from exactly these conditions: admissibility, the self-term
+    switch, the final NaN assignment, the dispatch of the buffer index and the start of the
+    inner loop, written with the derived leaves (`flag` = the C int handed to the kernel). -/
+theorem model_uses_leaves (c : Cfg K) (i j k n di dj : Nat) (b : Buf K) :
+    (adm c i j = true ↔ admCond (if c.crossval then 1 else 0) (c.cv i) (c.cv j) = 1) ∧
+    (c.crossval = false ↔ selfCond (if c.crossval then 1 else 0) = 1) ∧
+    finalize b k = (if finalGuard (b k).2 = 1 then some (finalDiv (b k).1 (b k).2) else none) ∧
+    pairKey n di dj = (if sameCond di dj = 1 then di
+      else if gtCond di dj = 1 then idxGt n di dj else idxLe n di dj) ∧
+    calcLoop c = forRange c.nObs 0
+      (fun i b => forRange (c.nObs - innerStart i) (innerStart i) (pairStep c i) (selfStep c i b))
+      (fun _ => (0, 0)) := by
+  refine ⟨?_, ?_, ?_, ?_, rfl⟩
+  · rw [(leaf_guards (0 : K) _ _ _ 0).2.2.2.2.1]
+    unfold adm
+    cases c.crossval <;> simp
+  · rw [(leaf_guards (0 : K) _ 0 0 0).2.2.2.2.2.1]
+    cases c.crossval <;> simp
+  · unfold finalize
+    by_cases h : 0 < (b k).2
+    · simp [h, (leaf_guards (b k).2 0 0 0 0).2.1]
+    · simp [h, (leaf_guards (b k).2 0 0 0 0).2.1]
+  · unfold pairKey sameCond gtCond
+    by_cases h1 : di = dj
+    · simp [h1]
+    · by_cases h2 : di < dj <;> simp [h1, h2]
+
+/-- The per-channel terms of the kernels (leaves from `similarity.pyx`): a channel counts iff
+    neither entry is NaN (the same test in all four kernels), Euclidean product, Poisson term,
+    correlation moments, variance arguments of the two `sqrt`, the correlation branch condition,
+    `calc_one`'s accumulators — each equals what the model's kernels use.  The coded mahalanobis
+    weight and summation bound are `n_dim` (what the property demands is the number of shared
+    channels `n_finite`: the known finding). -/
+theorem leaf_kernel_terms (x y : Nat → Option K) (xp yp : Nat → Option (K × K)) (c n nf : Nat)
+    (s t si si2 sj sj2 : K) :
+    validNat x y c = bothValid (nanFlag (x c)) (nanFlag (y c)) ∧
+    prodAt x y c = (match x c, y c with | some a, some b => euclidTerm a b | _, _ => 0) ∧
+    (oneAt x y c : K) = (match x c, y c with | some _, some _ => ofInt euclidW | _, _ => 0) ∧
+    poissonAt xp yp c = (match xp c, yp c with
+      | some (di, li), some (dj, lj) => poissonTerm di dj li lj | _, _ => 0) ∧
+    corrSi2 s = s * s ∧ corrSij s t = s * t ∧
+    corrVarI si2 si n = si2 - si * si / (n : K) ∧ corrVarJ sj2 sj n = sj2 - sj * sj / (n : K) ∧
+    (corrCond si2 sj2 = 1 ↔ 0 < si2 ∧ 0 < sj2) ∧
+    oneValNumber s = s ∧ oneValEqual s t = s / t ∧ oneWNumber t = t ∧ (ofInt oneWEqual : K) = 1 ∧
+    oneFinalDiv s t = s / t ∧
+    (mahalWeight n nf : K) = (n : K) ∧ mahalBound n nf = n := by
+  refine ⟨?_, ?_, ?_, ?_, rfl, rfl, rfl, rfl, ?_, rfl, rfl, rfl, ?_, rfl, rfl, rfl⟩
+  · unfold validNat bothValid nanFlag
+    cases x c <;> cases y c <;> simp
+  · unfold prodAt euclidTerm
+    cases x c <;> cases y c <;> rfl
+  · unfold oneAt euclidW
+    cases x c <;> cases y c <;> simp [ofInt]
+  · unfold poissonAt poissonTerm
+    cases xp c <;> cases yp c <;> rfl
+  · unfold corrCond
+    by_cases h : 0 < si2 ∧ 0 < sj2
+    · simp [h.1, h.2]
+    · have : ¬ ((((0 : Nat) : K) < si2) ∧ (((0 : Nat) : K) < sj2)) := by simpa using h
+      simp only [this, if_false]
+      constructor
+      · intro e; omega
+      · intro e; exact absurd e h
+  · simp [oneWEqual, ofInt]
+
+/-- The dispatch tables regenerated from `calc_rdm_unbalanced`, `calc_one_similarity` and the
+    three `method_idx` chains of the kernel: all six methods are served; crossnobis uses the
+    mahalanobis kernel and poisson_cv the poisson kernel, both cross-validated with *and without*
+    a fold descriptor; the four other methods cross-validate iff a fold descriptor is given; the
+    single-pair helper uses the same tables; without a precision `method_idx = 3` is Euclidean. -/
+theorem dispatch_table :
+    methodIdx "euclidean" = some 1 ∧ methodIdx "correlation" = some 2 ∧
+    methodIdx "mahalanobis" = some 3 ∧ methodIdx "crossnobis" = some 3 ∧
+    methodIdx "poisson" = some 4 ∧ methodIdx "poisson_cv" = some 4 ∧
+    (∀ m, oneMethodIdx m = methodIdx m) ∧
+    (∀ g, crossvalFlag "crossnobis" g = some 1 ∧ crossvalFlag "poisson_cv" g = some 1) ∧
+    (∀ m, m = "euclidean" ∨ m = "correlation" ∨ m = "mahalanobis" ∨ m = "poisson" →
+      crossvalFlag m false = some 0 ∧ crossvalFlag m true = some 1) ∧
+    weightIdx true = 1 ∧ weightIdx false = 0 ∧ (∀ nb, oneWeightIdx nb = weightIdx nb) ∧
+    (∀ g, kernCode 1 g = 1 ∧ kernCode 2 g = 2 ∧ kernCode 4 g = 4) ∧
+    kernCode 3 true = 3 ∧ kernCode 3 false = 1 := by
+  refine ⟨by decide, by decide, by decide, by decide, by decide, by decide, ?_, ?_, ?_,
+    by decide, by decide, ?_, ?_, by decide, by decide⟩
+  · intro m; unfold oneMethodIdx methodIdx; rfl
+  · intro g; cases g <;> exact ⟨by decide, by decide⟩
+  · rintro m (h | h | h | h) <;> subst h <;> exact ⟨by decide, by decide⟩
+  · intro nb; cases nb <;> rfl
+  · intro g; cases g <;> exact ⟨by decide, by decide, by decide⟩
+
+/-- the correlation kernel (either variant) and the coded mahalanobis weight, written with the
+    derived leaves: branch condition `corrCond`, variance arguments `corrVarI/J`, `mahalWeight` -/
+theorem kernels_by_leaves [HasSqrt K] (coded : Bool) (P : Nat) (N : Nat → Nat → K)
+    (x y : Nat → Option K) :
+    corrK coded P x y =
+      (let si := sumTo P (fstAt x y)
+       let sj := sumTo P (sndAt x y)
+       let si2 := sumTo P (fun c => fstAt x y c * fstAt x y c)
+       let sj2 := sumTo P (fun c => sndAt x y c * sndAt x y c)
+       let n : Nat := if coded then P else cntValid P x y
+       (corrScale (if corrCond si2 sj2 = 1 then
+          corrCov (sumTo P (prodAt x y)) si sj n / HasSqrt.sqrt (corrVarI si2 si n)
+            / HasSqrt.sqrt (corrVarJ sj2 sj n) else 1) n, sumTo P (oneAt x y))) ∧
+    (mahalK true P N x y).2 = mahalWeight P (cntValid P x y) := by
+  refine ⟨?_, rfl⟩
+  unfold corrK
+  simp only [(leaf_kernel_terms x y (fun _ => none) (fun _ => none) 0 0 0 0 0 0 _ 0 _).2.2.2.2.2.2.2.2.1]
+  rfl
+
+/-- The second result of the single-pair helper is the summed weight of the admissible ordered
+    observation pairs (`rectDen`: number of shared channels per pair for weighting 'number', the
+    number of valid pairs for 'equal'), and `calc_one` is assembled from the leaves of its text
+    (see `leaf_kernel_terms`, `leaf_guards`). -/
+theorem calc_one_weight (c : Cfg K) (hcv : c.crossval = true)
+    (a b : Nat) (na nb : Nat) (ia ib : Nat → Nat)
+    (hinja : ∀ i j, i < na → j < na → ia i = ia j → i = j)
+    (himga : ∀ i', (i' < c.nObs ∧ c.desc i' = a) ↔ ∃ i, i < na ∧ ia i = i')
+    (hinjb : ∀ i j, i < nb → j < nb → ib i = ib j → i = j)
+    (himgb : ∀ i', (i' < c.nObs ∧ c.desc i' = b) ↔ ∃ i, i < nb ∧ ib i = i') :
+    (calcOne na nb (fun i => c.cv (ia i)) (fun j => c.cv (ib j)) c.number
+      (fun i j => c.kern (ia i) (ib j))).2 = rectDen c a b :=
+  calcOne_weight c hcv a b na nb ia ib hinja himga hinjb himgb
+
+/-- non-vacuity for `calc_one_eq_entry` / `calc_one_weight`: observations 0, 2 of condition 0 and
+    1 of condition 1 among three, enumerated by `ia = (0, 2)`, `ib = (1)` -/
+example : let desc : Nat → Nat := fun i => i % 2
+    let ia : Nat → Nat := fun i => 2 * i
+    (∀ i, i < 2 → ∀ j, j < 2 → ia i = ia j → i = j) ∧
+    (∀ i', i' < 3 → (desc i' = 0 ↔ ∃ i, i < 2 ∧ ia i = i')) := by
+  decide
+
+/-- The Python layer splits the kernel's result at `len(unique_cond)` (self-similarities first,
+    then the condensed cross-similarities) and enumerates pairs with `np.triu_indices(n, 1)`
+    (leaves derived from the slices / the call): exactly the layout `assemble` reads —
+    `out a`, `out b` for the self terms and `out (n + p)` for position `p` — and that
+    `idx_position` ties to the kernel's buffer index. -/
+theorem leaf_python_slices (n : Nat) (out : Nat → Option K) :
+    selfStop n = n ∧ crossStart n = n ∧ triuN n = n ∧ triuK = 1 ∧
+    assemble n out = (pairs (triuN n)).zipIdx.map (fun (ab, p) =>
+      match out ab.1, out ab.2, out (crossStart n + p) with
+      | some sa, some sb, some cab => some (combine sa sb cab)
+      | _, _, _ => none) :=
+  ⟨rfl, rfl, rfl, rfl, rfl⟩
 
 end Rsa.Props.C15
